@@ -4,7 +4,7 @@ import re
 
 from .. import core, racelog
 
-IMPORTS = """From MV Require Import Model.RaceCfg Model.GuardSpec Model.LockOrder Proofs.RaceSound.
+IMPORTS = """From MV Require Import Model.RaceCfg Model.GuardSpec Model.LockOrder Model.SplitCs Proofs.RaceSound.
 From MVgen Require Import RaceProg.
 Open Scope N_scope.
 """
@@ -16,6 +16,10 @@ OBLIGATIONS = [
     ("C11_gen_lock_order",
      "order_ok (length class_names) (order_edges (all_classes (N.of_nat (length class_names))) rprogram "
      "(infer_entries (all_classes (N.of_nat (length class_names))) rprogram)) = true",
+     "vm_compute. reflexivity."),
+    ("C11_gen_check_then_act",
+     "sp_program (all_classes (N.of_nat (length class_names))) rprogram (infer_entries (all_classes (N.of_nat (length class_names))) rprogram) "
+     "(fun f => in_scope (nth (N.to_nat f) field_names EmptyString)) = []",
      "vm_compute. reflexivity."),
     ("C11_gen_translator_sane",
      "(200 <=? N.of_nat (length rprogram)) = true /\\ (1000 <=? n_accesses) = true /\\ (20 <=? N.of_nat (length class_names)) = true "
@@ -129,6 +133,54 @@ def run_concurrent(res, pid="C11", env=None):
     return {"concurrent_scenarios": n, "rounds_per_scenario": core.parse_printed(out, "nrounds")}
 
 
+SPLIT_REPORT = """From MV Require Import Model.RaceCfg Model.GuardSpec Model.SplitCs.
+From MVgen Require Import RaceProg.
+Open Scope string_scope.
+Definition ncl := N.of_nat (length class_names).
+Definition sv := Eval vm_compute in
+  map (fun x => (nth (N.to_nat (fst x)) fn_names "?", map (fun v => nth (N.to_nat v) field_names "?") (snd x)))
+      (sp_program (all_classes ncl) rprogram (infer_entries (all_classes ncl) rprogram) (fun f => in_scope (nth (N.to_nat f) field_names EmptyString))).
+Print sv.
+"""
+
+
+def report_split(res, pid, gd, must_contain):
+    """Names the functions that write a field on a reading made in an earlier critical section (Model/SplitCs.v)."""
+    p = os.path.join(core.WORK, pid, "report_split.v")
+    open(p, "w").write(SPLIT_REPORT)
+    rc, out, err, dt = core.coqc_file(p, extra=["-Q", gd, "MVgen"], timeout=900)
+    txt = re.sub(r"\s+", " ", out)
+    n = 0
+    for m in re.finditer(r'\("([^"]+)", \[(.*?)\]\)', txt):
+        fn, flds = m.group(1), sorted(set(re.findall(r'"([^"]+)"', m.group(2))))
+        if not any(k in fn or any(k in x for x in flds) for k in must_contain):
+            continue
+        n += 1
+        res.violation("static:check-then-act:%s" % fn,
+                      "%s reads %s under a mutex, releases the mutex, takes it again and writes the field without reading it again: what it decided on the first "
+                      "reading may no longer hold (two goroutines can both pass the check and both act)" % (fn, ", ".join(flds)),
+                      {"function": fn, "fields": flds, "analysis": "Model/SplitCs.v sp_program (may-analysis over the regenerated lock skeleton; no path-soundness theorem: a discipline rule)",
+                       "how": "bin/check %s regenerates the skeleton with harness/cmd/go2race and re-evaluates sp_program" % pid}, found_input=False)
+    return n
+
+
+def run_split_subset(res, pid, must_contain, obligation):
+    """Check-then-act rule restricted to functions / fields whose name contains one of must_contain (used by C02)."""
+    gd, rp = gen_raceprog(pid)
+    sub = " || ".join('has_sub "%s" (nth (N.to_nat (fst x)) fn_names EmptyString)' % m for m in must_contain)
+    stmt = ("filter (fun x => %s) (sp_program (all_classes (N.of_nat (length class_names))) rprogram (infer_entries (all_classes (N.of_nat (length class_names))) rprogram) "
+            "(fun f => in_scope (nth (N.to_nat f) field_names EmptyString))) = []" % sub)
+    obl = core.check_gen_obligations(pid + "_split", gd, IMPORTS + "Open Scope string_scope.\n", [(obligation, stmt, "vm_compute. reflexivity.")], timeout=900)
+    failed = [(n, e) for n, ok, e in obl if not ok]
+    res.coverage["discharged"] += len(obl) - len(failed)
+    res.coverage["theorems"] += [n for n, _, _ in obl]
+    res.coverage.setdefault("generated_obligations", {}).update({n: ok for n, ok, _ in obl})
+    if failed and not report_split(res, pid, gd, must_contain):
+        for n, e in failed:
+            res.violation("obligation:" + n, "generated obligation %s no longer checks against the skeleton regenerated from /repo" % n,
+                          {"theorem": n, "coqc": e, "translator": "harness/cmd/go2race"}, found_input=False)
+
+
 def run_static_subset(res, pid, must_contain, obligation, why):
     """The lock discipline (guarded_ok) on the skeleton regenerated from /repo, restricted to the fields whose name contains one of
     `must_contain` (e.g. the sends to a channel that is closed elsewhere: "<field>+send").  Used by properties other than C11."""
@@ -210,6 +262,8 @@ def run(res):
                       "them in opposite orders at the same time block each other for ever" % (", ".join(cyc), "; ".join("%s held while taking %s" % e for e in rel)[:600]),
                       {"classes_on_a_cycle": cyc, "nested_acquisitions": rel, "theorem": "C11_gen_lock_order (order_ok = true); Props/C11.v C11_lock_order_no_cycle",
                        "how": "bin/check C11 regenerates the skeleton with harness/cmd/go2race and re-evaluates Model/LockOrder.order_ok"}, found_input=False)
+    if any(n == "C11_gen_check_then_act" for n, _ in failed):
+        found += report_split(res, "C11", gd, [""])
     # ---- dynamic: race detector matrix ----
     raceout = os.path.join(core.WORK, "bin", "c11-race")
     core.go_build("c11", race=True, out=raceout)
@@ -246,6 +300,8 @@ def run(res):
             res.violation("scenario:" + s[0], "scenario %s could not be set up: %s" % s, {"scenario": s}, found_input=False)
     for n, e in failed:
         if n == "C11_gen_guarded" and static_fields:
+            continue
+        if n == "C11_gen_check_then_act" and any(sig.startswith("static:check-then-act") for sig, _, _, _ in res.violations):
             continue
         if n == "C11_gen_lock_order" and any(sig.startswith("static:lock-order") for sig, _, _, _ in res.violations):
             continue
